@@ -89,3 +89,112 @@ def run_capacity_script(script, scale=1):
         steps.append({"op": o, "out": out, "res": res,
                       "state": {"total": _vec(total, scale), "allocated": _vec(allocated, scale)}})
     return {"scale": str(scale), "steps": steps}
+
+
+# ------------------------------------------------------------------------------------------------ catalogues (C18)
+def catalog_env(tmpdir):
+    """Environment for TLC: the repository's instance-size file as is; the component catalogue re-formatted so that
+    the interface order of each entry survives JSON->TLA+ (objects become unordered records there)."""
+    import os
+    import fim.slivers as fs
+    base = os.path.join(os.path.dirname(fs.__file__), "data")
+    comp = json.load(open(os.path.join(base, "component_catalog.json")))
+    entries = []
+    for e in comp:
+        entries.append({"Model": e["Model"], "Type": e["Type"], "Details": e["Details"],
+                        "AlsoModels": list(e.get("AlsoModels", []) or []),
+                        "Interfaces": [[k, int(v)] for k, v in (e.get("Interfaces") or {}).items()]})
+    path = os.path.join(tmpdir, "component_catalog_for_tlc.json")
+    json.dump({"entries": entries}, open(path, "w"))
+    return {"FIM_INSTANCE_SIZES": os.path.join(base, "instance_sizes.json"), "FIM_COMPONENT_CATALOG": path}
+
+
+def _labels_for(kind, n):
+    from fim.slivers.capacities_labels import Labels
+    if kind == "none":
+        return None
+    out = []
+    for i in range(1, n + 1):
+        if kind == "scalar":
+            out.append(Labels(bdf="0000:41:00.%d" % i, mac="00:00:00:00:00:%02x" % i))
+        else:
+            k = 2 if kind == "list2" else 3
+            out.append(Labels(bdf=["0000:41:%02x.%d" % (j, i) for j in range(k)],
+                              mac=["00:00:00:00:%02x:%02x" % (j, i) for j in range(k)]))
+    return out
+
+
+def _project_component(cs, nsid, ids):
+    comp = {"name": cs.get_name(), "model": cs.get_model(), "type": str(cs.get_type()), "details": cs.get_details()}
+    nsi = cs.network_service_info
+    if nsi is None:
+        return {"comp": comp, "ns": {"name": "-", "type": "-", "layer": "-", "id": "-", "ifs": []}}
+    nss = list(nsi.network_services.values())
+    assert len(nss) == 1
+    ns = nss[0]
+    ifs = []
+    for isl in ns.interface_info.interfaces.values():
+        lab = isl.get_labels()
+        mac = lab.mac if lab is not None else None
+        if mac is None:
+            labidx = 0
+        else:
+            m = mac[0] if isinstance(mac, list) else mac
+            labidx = int(m.split(":")[-1], 16)
+        ln = lab.local_name if lab is not None else None
+        cap = isl.get_capacities()
+        ifs.append({"name": isl.get_name(), "type": str(isl.get_type()) if isl.get_type() is not None else "none",
+                    "id": isl.node_id if ids else "generated", "unit": cap.unit, "bw": cap.bw, "labidx": labidx,
+                    "local_name": ln if isinstance(ln, list) else [ln]})
+    return {"comp": comp, "ns": {"name": ns.get_name(), "type": str(ns.get_type()), "layer": str(ns.get_layer()),
+                                 "id": ns.node_id if nsid else "generated", "ifs": ifs}}
+
+
+def run_catalog_script(script):
+    from fim.slivers.instance_catalog import InstanceCatalog
+    from fim.slivers import component_catalog as cc
+    from fim.slivers.attached_components import ComponentType
+    import fim.slivers  # noqa: populates ComponentModelType
+    ic = InstanceCatalog()
+    cata = cc.ComponentCatalog()
+    raw = json.load(open(__import__("os").path.join(__import__("os").path.dirname(cc.__file__), "data", "component_catalog.json")))
+    steps = []
+    for o in script:
+        op = o["op"]
+        out, res = "ok", {"k": "none"}
+        try:
+            if op == "MapInstance":
+                name = ic.map_capacities_to_instance(cap=Capacities(core=o["core"], ram=o["ram"], disk=o["disk"]))
+                res = {"k": "str", "v": name}
+            elif op == "InstanceCaps":
+                c = ic.get_instance_capacities(instance_type=o["name"])
+                res = {"k": "caps", "known": c is not None,
+                       "v": {"core": 0, "ram": 0, "disk": 0} if c is None else {"core": c.core, "ram": c.ram, "disk": c.disk},
+                       "others_zero": c is None or all(getattr(c, f) == 0 for f in CAP_FIELDS if f not in ("core", "ram", "disk"))}
+            elif op == "ListInstances":
+                res = {"k": "names", "v": sorted(ic.list_instances().keys())}
+            elif op == "ModelTypeEnum":
+                items = sorted(cc.ComponentModelTypeMap.items(), key=lambda kv: kv[0].value)
+                res = {"k": "enum", "v": [{"type": v["Type"], "model": v["Model"]} for _, v in items]}
+            elif op == "GenComponent":
+                e = raw[o["idx"] - 1]
+                n_if = len(e.get("Interfaces") or {})
+                ids = list(o["ids"]) if o["ids"] else None
+                labels = _labels_for(o["labels"], len(ids) if ids else n_if)
+                kw = dict(name=o["name"], ns_node_id=o["nsid"] or None, interface_node_ids=ids, interface_labels=labels,
+                          parent_name=o["parent"] or None)
+                if o["via"] == "model_type":
+                    mt = [k for k, v in cc.ComponentModelTypeMap.items() if v is e or (v["Model"] == e["Model"] and v["Type"] == e["Type"])][0]
+                    kw["model_type"] = mt
+                elif o["via"] == "type_model":
+                    kw.update(ctype=ComponentType[e["Type"]], model=e["Model"])
+                elif o["via"] == "also_model":
+                    kw.update(ctype=ComponentType[e["Type"]], model=e["AlsoModels"][0])
+                else:
+                    kw.update(ctype=ComponentType.GPU, model="no-such-model")
+                cs = cata.generate_component(**kw)
+                res = {"k": "comp", "v": _project_component(cs, o["nsid"], ids)}
+        except Exception as ex:  # noqa
+            out, res = type(ex).__name__, {"k": "none"}
+        steps.append({"op": o, "out": out, "res": res})
+    return {"steps": steps}
